@@ -10,7 +10,7 @@ use matchers::{Follow, WalkEntry};
 use std::cell::RefCell;
 use std::error::Error;
 use std::io::{stderr, stdout, Write};
-use std::path::PathBuf;
+use std::path::{Path, PathBuf};
 use std::rc::Rc;
 use std::time::SystemTime;
 use walkdir::WalkDir;
@@ -216,6 +216,7 @@ fn process_dir(
                 }
 
                 let mut matcher_io = matchers::MatcherIO::new(deps);
+                matcher_io.set_starting_point(Path::new(dir));
 
                 let new_dir = entry.path().parent().map(|x| x.to_path_buf());
                 if new_dir != current_dir {
